@@ -38,7 +38,6 @@ def verify_one(args):
         from pyvc.source import SourceIndex
         from pyvc.engine import Executor
         from pyvc.core import Untranslatable, ContractError
-        from pyvc.solve import discharge, check_sat
         reg = load_contracts()
         c = reg.contracts[qual]
         if vidx is not None:
@@ -59,20 +58,16 @@ def verify_one(args):
         out["yield_sites"] = ex.yield_sites
         out["assumptions"] = sorted(ex.assumption_log)
         out["lineno"] = fn.lineno
+        from pyvc.solve import obligation_text, hyps_text
         for o in obls:
-            r = discharge(o, timeout_s)
             oid = o.oid if vidx is None else o.oid.replace(c.qual + "/", f"{c.qual}[{c.variant_name}]/", 1)
-            r.update({"id": oid, "line": o.lineno, "note": o.note})
-            out["obligations"].append(r)
-        exit_ok = None
+            item = {"id": oid, "line": o.lineno, "note": o.note, "trivial": bool(getattr(o, "trivial", False)),
+                    "timeout": timeout_s}
+            if not item["trivial"]:
+                item["smt2"], item["names"] = obligation_text(o)
+            out["obligations"].append(item)
         for cid, hyps in covers:
-            stt = check_sat(hyps, min(timeout_s, 3.0))
-            if cid.endswith("/exit.cover"):
-                exit_ok = bool(exit_ok) or stt != "unsat"
-                continue
-            out["covers"].append({"id": cid, "status": stt})
-        if exit_ok is not None:
-            out["covers"].append({"id": f"{qual}/exit.cover(any normal exit reachable)", "status": "sat" if exit_ok else "unsat"})
+            out["covers"].append({"id": cid, "smt2": hyps_text(hyps)})
         if c.provider_requires and not getattr(ex, "provider_calls", 0):
             out["undecided_reason"] = "provider discipline stated but no provider call site was reached (vacuous)"
         if c.yields and ex.yield_sites == 0:
@@ -103,9 +98,33 @@ def verify(props=None, functions=None, timeout_s=10.0, repo=None, procs=None):
     if not jobs:
         return []
     ctx = mp.get_context("fork")
+    from pyvc.solve import discharge_text, check_sat_text
     with ctx.Pool(procs, maxtasksperchild=4) as pool:
         res = pool.map(verify_one, jobs, chunksize=1)
+    # phase 2: every obligation is an independent query; discharge all of them 16-wide
+    items = [(ri, oi) for ri, r in enumerate(res) for oi in range(len(r["obligations"]))]
+    with ctx.Pool(min(16, max(1, len(items))), maxtasksperchild=50) as pool:
+        outs = pool.map(discharge_text, [res[ri]["obligations"][oi] for ri, oi in items], chunksize=1)
+        citems = [(ri, ci) for ri, r in enumerate(res) for ci in range(len(r["covers"]))]
+        couts = pool.map(_cover, [res[ri]["covers"][ci]["smt2"] for ri, ci in citems], chunksize=1)
+    for (ri, oi), o in zip(items, outs):
+        it = res[ri]["obligations"][oi]
+        o.update({"id": it["id"], "line": it["line"], "note": it["note"]})
+        res[ri]["obligations"][oi] = o
+    for (ri, ci), stt in zip(citems, couts):
+        res[ri]["covers"][ci] = {"id": res[ri]["covers"][ci]["id"], "status": stt}
+    for r in res:
+        exits = [c for c in r["covers"] if c["id"].endswith("/exit.cover")]
+        r["covers"] = [c for c in r["covers"] if not c["id"].endswith("/exit.cover")]
+        if exits:
+            ok = any(c["status"] != "unsat" for c in exits)
+            r["covers"].append({"id": exits[0]["id"] + "(any exit reachable)", "status": "sat" if ok else "unsat"})
     return res
+
+
+def _cover(txt):
+    from pyvc.solve import check_sat_text
+    return check_sat_text(txt, 3.0)
 
 
 def trusted(props=None):
